@@ -25,7 +25,7 @@ RULE = (
     "child change; distinct = distinct (tree fingerprint, operation, change kinds)"
 )
 ASSUMPTIONS = ["control construction: Cls(**merged fields) built in the same registry state gives 'the id a fresh construction would get' (id determinism itself is C03's subject)"]
-MUST_SEE = ["dup_of_node_from_edited_payload", 
+MUST_SEE = ["rejected_replace_before_duplicate", "value_churn_before_duplicate", "dup_of_node_from_edited_payload", 
     "dup_tuple_depth_ge2", "dup_shared", "dup_stale_twin_in_tree", "replace_detached_with_live_twin", "replace_noncompare_only",
     "replace_child_equal_twin", "dc_replace", "control_constructions", "dup_noninit_fields",
 ]
@@ -63,6 +63,10 @@ def run_shard(ctx):
             if sp.tag == "detach_after_build":
                 node.detach_self()
 
+        # values that are == and hash-equal to values used in the tree, but of another type, pass through first
+        for v_ in (1, 0, True, False, 1.0, 0.0, -0.0):
+            U.cls[f"{P}Leaf"](v=v_, s="alias").detach()
+            U.cls[f"{P}Mix"](f=v_ if isinstance(v_, float) else float(v_), b=bool(v_)).detach()
         root = build(U, s, after=after)
         pos = preorder(U, s)
         fp = G.shape_fingerprint(U, s)
@@ -84,6 +88,19 @@ def run_shard(ctx):
             ctx.count("dup_noninit_fields")
         if any(p.index is not None and p.depth >= 2 for p in pos):
             ctx.count("dup_tuple_depth_ge2")
+        if case % 3 == 2:
+            # history: a replace() on the root was rejected before (unknown field / refusing class)
+            try:
+                root.replace(no_such_field=1)
+            except Exception:  # noqa: BLE001
+                ctx.count("rejected_replace_before_duplicate")
+        if case % 5 == 1:
+            # history: several hundred other property values pass through the library between building and copying
+            churn = [U.cls[f"{P}Leaf"](v=50000 + case * 1000 + i, s=f"churn{i}") for i in range(300)]
+            for x_ in churn:
+                x_.detach()
+            del churn, x_
+            ctx.count("value_churn_before_duplicate")
         reg_before = {k: v for k, v in ((o.id, o) for o in orig_objs.values()) if ASTNode.get_any(k) is v}
         d = root.duplicate()
         ctx.evaluations += 1
